@@ -64,6 +64,7 @@ Gen gen_reply(Src &s, const std::vector<uint8_t> &query, const Query &q, uint16_
   if (adv) { int r = s.below(12); if (r == 1) rcode = 3; else if (r == 2) rcode = 2; else if (r == 3) rcode = 5; else if (r == 4) rcode = 4; else if (r == 5) rcode = 1; else if (r == 6) rcode = 6 + s.below(10);
     if (s.chance(1, 8)) { flags |= F_TC; g.tc = true; } if (s.chance(1, 16)) flags |= (uint16_t)(s.below(16) << 11); }
   else if (s.chance(1, 6) && !(cname_flag && known_unused)) rcode = 3;
+  if (adv && s.chance(1, 12)) { flags &= (uint16_t)~F_QR; g.pristine = false; }      // a query, not a response: must be ignored
   if (rcode || g.tc) { if (rcode != 0 && rcode != 3) g.pristine = false; if (g.tc) g.pristine = false; }
   if ((rcode == 2 || rcode == 4 || rcode == 5) && !allow.servfail) { verif_known_skipped("asan:heap-use-after-free@client_tcp_read_packet_cb"); rcode = 3; }
   flags |= (uint16_t)rcode;
@@ -259,7 +260,9 @@ extern "C" int LLVMFuzzerTestOneInput(const uint8_t *data, size_t size) {
         else if (qtype == T_PTR && !have_ptr) { have_ptr = true; ptr_ttl = rr.ttl; if (nm.ok) { want_ptr = join(nm.labels); ptr_plain = plain_labels(nm.labels) && !nm.too_long; } else ptr_plain = false; } }
       if (qtype != T_PTR && rr.type == qtype && rr.klass == C_IN) { if (rr.rdlen != alen) odd_rdlen = true; want.insert(want.end(), seen.begin() + rr.rdoff, seen.begin() + rr.rdoff + rr.rdlen); if (rr.ttl < min_ttl) min_ttl = rr.ttl; }
     }
+    bool owner_undecodable = false;
     if (!m.an_complete) { size_t off = m.an_end; NameResult nm = parse_name(seen.data(), seen.size(), &off);
+      if (!nm.ok) owner_undecodable = true;
       if (nm.ok && off + 10 <= seen.size()) { uint16_t t = rd16(seen.data() + off); if (t == T_CNAME || t == T_PTR) name_rdl_lie = true; } }
     bool err_flags = (m.flags & F_RCODE) || (m.flags & F_TC);
     if (c.main_count == 0) {
@@ -290,7 +293,7 @@ extern "C" int LLVMFuzzerTestOneInput(const uint8_t *data, size_t size) {
     CHECK(!err_flags, "C33/error-reply-used", "reply with rcode %d%s delivered data", m.rcode(), (m.flags & F_TC) ? " and TC" : "");
     const char *wrong_key = (name_rdl_lie && !k_rdl) ? "C33/name-rdlength-ignored" : "C33/wrong-answer";
     if (name_rdl_lie && k_rdl) { verif_known_skipped("C33/name-rdlength-ignored"); lenient_seen = true; }
-    else if (!m.an_complete && !name_rdl_lie) { lenient_seen = true; verif_class("lenient_malformed_answer_section"); }   // undecodable RR (reserved label type, ...): no claim about what follows
+    else if (!m.an_complete && owner_undecodable) { lenient_seen = true; verif_class("lenient_malformed_answer_section"); }   // undecodable RR (reserved label type, ...): no claim about what follows
     else if (qtype == T_PTR) {
       CHECK(have_ptr, wrong_key, "PTR result \"%s\" but the answer section holds no PTR/IN record", esc(r.str, 60).c_str());
       if (ptr_plain) CHECK(r.str == want_ptr, wrong_key, "PTR result \"%s\", the first PTR record says \"%s\"", esc(r.str, 80).c_str(), esc(want_ptr, 80).c_str()); else lenient_seen = true;
